@@ -11,6 +11,12 @@ import sys
 import traceback
 
 HERE = os.path.dirname(os.path.abspath(__file__))
+VENV_PY = "/venv/bin/python"
+if os.path.realpath(sys.executable) != os.path.realpath(VENV_PY) and os.path.exists(VENV_PY) \
+        and not os.environ.get("VERIF_REEXEC"):
+    # the implementation and its dependencies live in /venv only
+    os.environ["VERIF_REEXEC"] = "1"
+    os.execv(VENV_PY, [VENV_PY, os.path.abspath(__file__)] + sys.argv[1:])
 sys.path.insert(0, HERE)
 from harness import core  # noqa: E402
 
